@@ -52,6 +52,31 @@ def seat_tables(chk, rule, f):
 
 
 def run(chk):
+    """Two deciders: the explicit-state exploration of the folded engine against the Laws (bidfold: public interface only, bounded
+    depth + scripted long auctions) and the symbolic path summaries below (all histories, but tied to the shapes the summariser
+    recognises).  A representation of the engine state the summaries cannot bind is not an analysis error as long as the
+    exploration decides the behaviour; it is recorded in the evidence."""
+    from . import bidfold
+    bidfold.run(chk, 'C01')
+    try:
+        symbolic(chk)
+    except AnalysisError as e:
+        if chk.findings:
+            raise
+        chk.explanation = ''
+        chk.note(f'symbolic rules not evaluated ({e.rule} at {e.anchor}: {e.why[:200]}); the verdict rests on the bounded exploration only')
+    chk.explanation = ('Explicit-state exploration of the folded BiddingPhase (numpy vector on a 1-d array model) against an oracle of the Laws: every '
+                       'call sequence over an alphabet of all call kinds (pass, double, redouble, cheapest / denomination-changing / same-denomination / '
+                       'top bids, insufficient bids) to depth 6 (8 thorough) from dealer N, depth 4-5 from the other dealers and vulnerabilities, plus '
+                       'scripted long auctions (the 319-call maximum); at every prefix turn, vector of the 38 calls, histories, end, contract and declarer '
+                       'are compared, refused calls and calls after the end must change nothing.  ' + (chk.explanation or
+                       'The symbolic path-summary rules could not bind the state representation of this tree and were not evaluated.'))
+
+
+def symbolic(chk):
+    # a failure is reported only for a path whose guards ALL evaluate under the valuation: a guard over state the valuation does not
+    # know (another representation of the engine state) makes the path indefinite -> no verdict from this rule (bidfold decides)
+    chk.strict_guards = True
     B = Bidding(chk, 'C01')
     f, r = B.f, B.roles
     chk.explanation = (
